@@ -634,6 +634,18 @@ class Gen(object):
             srcs = srcs + wsrcs  # (a new list: the wide sources stay out of everything generated before)
             # a few more virtual fields doing 32/64-bit arithmetic and comparisons on whatever integer fields exist
             self.wide_now = True
+            # one step past a source's own range: f + 1, f - 1, f + f, 0 - f, f * 2 (results needing the next wider type)
+            ints = [x for x in srcs if x.kind == "int" and x.hi - x.lo > 255]
+            for _ in range(r.randint(0, 2) if ints else 0):
+                x = r.choice(ints)
+                form = r.choice(["+1", "-1", "dbl", "neg", "x2", "+k"])
+                a = ref(*x.path)
+                e, lo, hi = {"+1": (op("+", a, num(1)), x.lo + 1, x.hi + 1), "-1": (op("-", a, num(1)), x.lo - 1, x.hi - 1),
+                             "dbl": (op("+", a, a), 2 * x.lo, 2 * x.hi), "neg": (op("-", num(0), a), -x.hi, -x.lo),
+                             "x2": (op("*", a, num(2)), 2 * x.lo, 2 * x.hi),
+                             "+k": (op("+", a, num(255)), x.lo + 255, x.hi + 255)}[form]
+                if self.gate_ok((x.lo, x.hi), (lo, hi), (0, 255)):
+                    fields.append(Field(self.fname(used, "edge"), "virtual", expr=e))
             for _ in range(r.randint(1, 3)):
                 name = self.fname(used, r.choice(["wide", "sum", "mix"]))
                 if r.random() < 0.7:
